@@ -385,9 +385,12 @@ class ParametricSweepFactory:
             else:
                 optional_external[param.name] = param.default
 
-        from_context_keys = [
-            spec.key for spec in vars.values() if isinstance(spec, FromContext)
-        ]
+        # Several variables may read the same context key: list each key once.
+        from_context_keys = list(
+            dict.fromkeys(
+                spec.key for spec in vars.values() if isinstance(spec, FromContext)
+            )
+        )
 
         external_param_names: List[str] = (
             list(from_context_keys)
